@@ -90,6 +90,20 @@ Theorem C06_zone_out_of_range : forall h mi s us off, off < -840 \/ 840 < off ->
                 print_date (mkDate y m d (Some off)) = Err ValueError.
 Proof. exact time_print_out_of_range. Qed.
 
+(* a tzinfo can carry any offset with microsecond resolution.  [with_utcoffset (Some o) k] is xsd_repr of a value
+   whose offset is o microseconds: offsets that are no whole number of minutes (seconds or microseconds left over)
+   or lie beyond +-14:00 - even by one microsecond - are refused with ValueError, for every type (k arbitrary);
+   the others are exactly the whole-minute offsets the theorems below speak about. *)
+Theorem C06_zone_subminute_rejected : forall (A : Type) o (k : tz -> res A),
+  o mod 60000000 <> 0 \/ o < -50400000000 \/ 50400000000 < o -> with_utcoffset (Some o) k = Err ValueError.
+Proof. exact @with_utcoffset_reject. Qed.
+Theorem C06_zone_whole_minutes : forall (A : Type) m (k : tz -> res A), -840 <= m <= 840 ->
+  with_utcoffset (Some (m * 60000000)) k = k (Some m).
+Proof. exact @with_utcoffset_whole. Qed.
+Theorem C06_zone_accepted_is_whole : forall o t, tz_of_us o = Ok t ->
+  tz_ok t = true /\ match o, t with None, None => True | Some u, Some m => u = m * 60000000 | _, _ => False end.
+Proof. exact tz_of_us_ok. Qed.
+
 (* ---- date, time, dateTime: every well-formed value (fields in the ranges the datetime constructors
    enforce: year 1..9999, real calendar days, 0..23 h, 0..59 min/s, ALL microseconds 0..999999; zone in range)
    is written as a valid literal of its type that reads back as the same value *)
